@@ -236,6 +236,10 @@ func (g *c19Gen) setter(o int) c19Op {
 			v += 2000
 		}
 		variant := r.Intn(3)
+		if k != c19HAuth && k != c19HContentType && r.Intn(8) == 0 {
+			v = c19VEmpty // the EMPTY string is a value like any other (and suppresses User-Agent)
+			g.hist["header-value-empty"]++
+		}
 		if variant == 1 && k < 100 { // map form with two keys
 			ks := c19Keys(r, 2, 1, 6)
 			vs := c19Ints(r, 2, 1, 6)
@@ -270,6 +274,10 @@ func (g *c19Gen) setter(o int) c19Op {
 	case "ha":
 		k, v := 7+r.Intn(3), 1+r.Intn(6)
 		variant := r.Intn(2)
+		if r.Intn(8) == 0 {
+			v = c19VEmpty
+			g.hist["header-value-empty"]++
+		}
 		return one(code, S("ha,%d,%d", k, v), func(w *c19World, c *Client, q *Request) {
 			name, val := c19HeaderName(k), c19HeaderValue(v)
 			switch {
